@@ -15,5 +15,9 @@ func Main() {
 	r.Cases("blocksync", r.N(48, 2000), core.Opts{Procs: 16, StallSec: 300}, blocksync)
 	r.Cases("attack", len(netsim.Attacks)*len(netsim.AttackCfgs()), core.Opts{Procs: 16, StallSec: 300}, func(c *core.Case) { netsim.AttackCase(c, "C01") })
 	r.Cases("random", r.N(400, 8000), core.Opts{Procs: 16, StallSec: 300}, func(c *core.Case) { netsim.RandomCase(c, "C01", 7, 400) })
+	if !r.Quick() {
+		// E-live: real reactors, switches and tickers (no race instrumentation here; C03's thorough tier runs it under -race)
+		r.Cases("live", 6, core.Opts{Procs: 3, StallSec: 1500, InconclusiveFatal: []string{"lib/p2p.Connect2Switches"}}, func(c *core.Case) { netsim.LiveCase(c, "C01") })
+	}
 	r.Finish()
 }
